@@ -3,6 +3,19 @@
 ALL = ["quick", "thorough"]
 
 PROPS = {
+    "C07": dict(
+        level="exploration",
+        runs=[dict(name="rel", flavour="rel", shards=16, timeout=1200, timeout_thorough=7200)],
+        rule=("cases = (operation, backend, N, operand/result limb counts, rows/cols, (step, offset) / limb_offset / cnv_offset / pairwise indices / mask, "
+              "value classes of both operands); 20 operations: forward+inverse transform (three inverse variants), svp (3), vmp (2, with limb_offset), "
+              "bivariate convolution (apply, pairwise, prepare_self, by_const), DFT-domain add/sub/sub_negate/add_scaled/copy/zero. Operand widths are the "
+              "largest the exactness predicate of DESIGN §3.3 admits for (N, number of accumulated terms). All N coefficients are compared for N <= 256, 28 "
+              "random coefficients (plus 0, 1, N/2, N-1) above. Non-trivial = neither operand class is all-zero; distinct = hash of the tuple"),
+        min_evaluations=dict(quick=200000, thorough=4000000),
+        assumptions=["exactness is only asserted inside the conservative magnitude predicate (FFT64: terms*n*2^(ba+bb-2)*13*log2(n) < 2^52 and |x| < 2^50; NTT120: log2(terms*n)+ba+bb-2 < 118)",
+                     "vec_znx_dft_add_scaled_assign with a_scale > 0 and a.size > res.size: the documentation does not fix how many limbs take part; both readings are accepted",
+                     "the coefficient-domain content of a DFT vector is read through the library's own inverse transform (itself checked by the identity cases)"],
+    ),
     "C08": dict(
         level="exploration",
         runs=[
